@@ -420,6 +420,105 @@ func runC18(seed int64, tier string, sc *Script) map[string]any {
 		sc.Op(v, "cd concurrent round=%d", ri)
 		evals++
 	}
+	// concurrent callers, each goroutine working on addresses of its own: whatever the
+	// interleaving, every sequential order of the calls ends in the same file, namely each
+	// address holding what its owner did last, with the foreign keys untouched
+	sc.Case("cred-concurrent-owned")
+	sc.NonTrivial()
+	ownedRounds := 60
+	if tier == "thorough" {
+		ownedRounds = 1500
+	}
+	for ri := 0; ri < ownedRounds; ri++ {
+		path := filepath.Join(tmp, fmt.Sprintf("co%d", ri), "config.json")
+		os.MkdirAll(filepath.Dir(path), 0o755)
+		const G = 8
+		// pre-populate: every goroutine owns two addresses; plus keys the library does not know
+		auths := map[string]any{}
+		for g := 0; g < G; g++ {
+			for a := 0; a < 2; a++ {
+				auths[fmt.Sprintf("own%d-%d.test", g, a)] = map[string]any{
+					"auth": base64.StdEncoding.EncodeToString([]byte(fmt.Sprintf("init%d:pw%d", g, a))), "x-unknown": g}
+			}
+		}
+		auths["keep.test"] = map[string]any{"auth": base64.StdEncoding.EncodeToString([]byte("keep:kpw")), "identitytoken": "krt"}
+		doc := map[string]any{"auths": auths, "x-foreign": map[string]any{"a": []int{1, 2, 3}}, "credsStore": ""}
+		b, _ := json.Marshal(doc)
+		os.WriteFile(path, b, 0o600)
+		fs, err := credentials.NewFileStore(path)
+		if err != nil {
+			panic(err)
+		}
+		final := make([]map[string]*auth.Credential, G) // per goroutine: address -> last state (nil = deleted)
+		plans := make([][]int, G)
+		for g := 0; g < G; g++ {
+			final[g] = map[string]*auth.Credential{}
+			n := 2 + rng.Intn(4)
+			for k := 0; k < n; k++ {
+				plans[g] = append(plans[g], rng.Intn(100))
+			}
+		}
+		var wg sync.WaitGroup
+		var failed sync.Map
+		for g := 0; g < G; g++ {
+			wg.Add(1)
+			go func(g int) {
+				defer wg.Done()
+				for k, r := range plans[g] {
+					addr := fmt.Sprintf("own%d-%d.test", g, r%2)
+					if r < 60 { // deletes dominate
+						if err := fs.Delete(ctx, addr); err != nil {
+							failed.Store(fmt.Sprintf("delete:%v", err), true)
+						}
+						final[g][addr] = nil
+					} else {
+						c := auth.Credential{Username: fmt.Sprintf("u%d", g), Password: fmt.Sprintf("p%d-%d", g, k)}
+						if err := fs.Put(ctx, addr, c); err != nil {
+							failed.Store(fmt.Sprintf("put:%v", err), true)
+						}
+						final[g][addr] = &c
+					}
+					fs.Get(ctx, "keep.test")
+				}
+			}(g)
+		}
+		wg.Wait()
+		v := "serialisable"
+		failed.Range(func(k, _ any) bool { v = "call-failed:" + k.(string); return false })
+		fs2, err := credentials.NewFileStore(path)
+		if err != nil {
+			v = "file-damaged"
+		} else if v == "serialisable" {
+			for g := 0; g < G; g++ {
+				for addr, want := range final[g] {
+					got, err := fs2.Get(ctx, addr)
+					switch {
+					case err != nil:
+						v = "get-failed:" + addr
+					case want == nil && got != auth.EmptyCredential:
+						v = "deleted-entry-still-in-file:" + addr
+					case want != nil && got != *want:
+						v = "last-put-lost:" + addr
+					}
+				}
+			}
+			if k, _ := fs2.Get(ctx, "keep.test"); k.Username != "keep" || k.Password != "kpw" || k.RefreshToken != "krt" {
+				v = "untouched-entry-changed"
+			}
+			raw, _ := os.ReadFile(path)
+			var back struct {
+				Foreign struct {
+					A []int `json:"a"`
+				} `json:"x-foreign"`
+			}
+			if json.Unmarshal(raw, &back) != nil || fmt.Sprint(back.Foreign.A) != "[1 2 3]" {
+				v = "foreign-key-lost"
+			}
+		}
+		sc.Op(v, "cd concurrent round=%d", ri)
+		sc.Count("concurrent-owned")
+		evals++
+	}
 	sc.Extra["evaluations"] = evals
 	return nil
 }
